@@ -62,7 +62,9 @@ def _tree_text(t, gmap, top=True):
 
 # identifiers.org-style annotation values behind the abstract tokens 1..5: single identifiers and
 # lists of identifiers of one provider (one identifier a substring of an earlier one, dots)
-ANNVAL = {1: "1", 2: "2", 3: ["1.1.1.27", "1.1.1.2"], 4: "4", 5: ["21765", "1765", "10108"], 6: "6"}
+ANNVAL = {1: "1", 2: "2", 3: ["1.1.1.27", "1.1.1.2"], 4: "4", 5: ["21765", "1765", "10108"], 6: "6",
+          # a structured entry (JSON / YAML / dict / pickle carry it; SBML annotations cannot, see A_RoundTrip)
+          7: {"nested": ["x", "y"], "n": 1}}
 
 
 # note values behind the abstract tokens: plain text (1, 2) and what JSON / YAML / dict / pickle must also carry:
@@ -112,6 +114,8 @@ def _ann_token(val):
         return 0
     for k, v in ANNVAL.items():
         if isinstance(v, list) and isinstance(val, (list, tuple)) and list(val) == v:
+            return k
+        if isinstance(v, dict) and isinstance(val, dict) and json.loads(json.dumps(val)) == v:
             return k
     raise ValueError("annotation value %r is none of the tokens" % (val,))
 
@@ -311,7 +315,10 @@ class ModelDriver:
             if self.rx[op["new"]] in target.reactions:
                 raise Skip("id exists in the target model")
             kind = op["kind"]
-            res = rxn.copy() if kind == "copy" else (rxn + q if kind == "add" else (rxn - q if kind == "sub" else rxn * op["k"]))
+            res = (rxn.copy() if kind == "copy" else rxn + q if kind == "add" else rxn - q if kind == "sub"
+                   else sum([rxn]) if kind == "sum1" else 0 + rxn if kind == "radd0" else rxn * op["k"])
+            if res is rxn:
+                raise AssertionError("reaction arithmetic returned its operand")
             res.id = self.rx[op["new"]]
             target.add_reactions([res])
             return None
@@ -473,7 +480,8 @@ class ModelDriver:
             rxn = self.get_rxn(model, op["r"])
             q = self.get_rxn(model, op["q"])
             kind = op["kind"]
-            res = rxn.copy() if kind == "copy" else (rxn + q if kind == "add" else (rxn - q if kind == "sub" else rxn * op["k"]))
+            res = (rxn.copy() if kind == "copy" else rxn + q if kind == "add" else rxn - q if kind == "sub"
+                   else sum([rxn]) if kind == "sum1" else 0 + rxn if kind == "radd0" else rxn * op["k"])
             inexact = []
             n = len(GENE)
             subsets = [{self.gene[GENE[i]] for i in range(n) if (k >> i) & 1} for k in range(2 ** n)]
